@@ -84,7 +84,7 @@ func (pass *AnonymousEnumToExplicitType) processType(pkg string, currentObjectNa
 	}
 
 	if def.IsEnum() {
-		return pass.processAnonymousEnum(pkg, suggestedEnumName, def.AsEnum(), def.Nullable)
+		return pass.processAnonymousEnum(pkg, suggestedEnumName, def.AsEnum(), def.Nullable, def.Default)
 	}
 
 	if def.IsDisjunction() {
@@ -138,7 +138,7 @@ func (pass *AnonymousEnumToExplicitType) processStruct(pkg string, parentName st
 	return def
 }
 
-func (pass *AnonymousEnumToExplicitType) processAnonymousEnum(pkg string, parentName string, def ast.EnumType, nullable bool) ast.Type {
+func (pass *AnonymousEnumToExplicitType) processAnonymousEnum(pkg string, parentName string, def ast.EnumType, nullable bool, defaultValue any) ast.Type {
 	enumTypeName := tools.UpperCamelCase(parentName)
 
 	values := make([]ast.EnumValue, 0, len(def.Values))
@@ -160,6 +160,9 @@ func (pass *AnonymousEnumToExplicitType) processAnonymousEnum(pkg string, parent
 	}
 	if nullable {
 		typeOpts = append(typeOpts, ast.Nullable())
+	}
+	if defaultValue != nil {
+		typeOpts = append(typeOpts, ast.Default(defaultValue))
 	}
 
 	return ast.NewRef(pass.currentPackage, enumTypeName, typeOpts...)
